@@ -263,6 +263,19 @@ func c14Form(c *core.Ctx, e c14Emitter, v map[string]string, baseline string, ba
 		return
 	}
 	replay["page"] = string(trunc(page, 10000))
+	// pages handed out earlier stay what they were: a page that a later emission (with other, possibly hostile values)
+	// rewrites is a page whose content the peer of that later request controls
+	for i := range c14Held {
+		if !bytes.Equal(c14Held[i].page, c14Held[i].copy) {
+			c.Violation("C14/form/earlier-page-rewritten/"+c14Held[i].name, fmt.Sprintf("the page emitted for (%s) changed after a later emission (%s)", truncate(c14Held[i].desc, 200), truncate(desc, 200)), map[string]any{"was": string(trunc(c14Held[i].copy, 4000)), "is": string(trunc(c14Held[i].page, 4000))})
+			c14Held = nil
+			return
+		}
+	}
+	c14Held = append(c14Held, c14HeldPage{e.name, desc, page, append([]byte(nil), page...)})
+	if len(c14Held) > 6 {
+		c14Held = c14Held[1:]
+	}
 	pg, perr := htmlmon.Parse(page)
 	if perr != nil {
 		c.Violation("C14/unparsable/"+e.name, perr.Error(), replay)
@@ -661,3 +674,10 @@ func respStr(p *string) string {
 	}
 	return fmt.Sprintf("%q", truncate(*p, 60))
 }
+
+type c14HeldPage struct {
+	name, desc string
+	page, copy []byte
+}
+
+var c14Held []c14HeldPage
